@@ -60,6 +60,7 @@ properties! {
     "C09" => c09,
     "C10" => c10,
     "C11" => c11,
+    "C12" => c12,
     "C13" => c13,
     "C14" => c14,
     "C15" => c15,
